@@ -3,8 +3,10 @@ package main
 import (
 	"encoding/json"
 	"fmt"
+	"math"
 	"reflect"
 	"sort"
+	"strconv"
 	"strings"
 
 	ap "github.com/go-ap/activitypub"
@@ -519,6 +521,57 @@ func init() {
 				}
 			}
 		}
+		// integers no float64 can hold exactly (beyond 2^53): written and read as integers, digit for digit.
+		// These are compared in Go directly: the value trees of the harness travel as JSON numbers.
+		for _, big := range []int64{1<<53 + 1, 1<<53 + 3, 1<<62 + 1, math.MaxInt64} {
+			for _, sign := range []int64{1, -1} {
+				z := sign * big
+				var viol string
+				pan, msg := guard(func() {
+					p := &ap.Place{ID: "https://example.com/p", Type: ap.PlaceType, Radius: z}
+					b, err := ap.MarshalJSON(p)
+					if err != nil {
+						viol = "MarshalJSON error: " + err.Error()
+						return
+					}
+					back, err := ap.UnmarshalJSON(b)
+					if err != nil {
+						viol = "UnmarshalJSON error: " + err.Error()
+						return
+					}
+					if q, ok := back.(*ap.Place); !ok || q.Radius != z {
+						viol = fmt.Sprintf("Place.radius %d comes back as %v   bytes: %s", z, back, b)
+					}
+					if z > 0 {
+						oc := &ap.OrderedCollectionPage{ID: "https://example.com/c", Type: ap.OrderedCollectionPageType, TotalItems: uint(z), StartIndex: uint(z)}
+						b, err = ap.MarshalJSON(oc)
+						if err == nil {
+							back, err = ap.UnmarshalJSON(b)
+						}
+						if q, ok := back.(*ap.OrderedCollectionPage); err != nil || !ok || q.TotalItems != uint(z) || q.StartIndex != uint(z) {
+							viol = fmt.Sprintf("totalItems/startIndex %d come back as %v (%v)   bytes: %s", z, back, err, b)
+						}
+						l := &ap.Link{ID: "https://example.com/l", Type: ap.LinkType, Width: uint(z), Height: uint(z)}
+						b, err = ap.MarshalJSON(l)
+						if err == nil {
+							back, err = ap.UnmarshalJSON(b)
+						}
+						if q, ok := back.(*ap.Link); err != nil || !ok || q.Width != uint(z) || q.Height != uint(z) {
+							viol = fmt.Sprintf("Link width/height %d come back as %v (%v)   bytes: %s", z, back, err, b)
+						}
+					}
+				})
+				if pan {
+					viol = "panic: " + msg
+				}
+				in := map[string]interface{}{"bigint": fmt.Sprint(z)}
+				c.Count(in, true)
+				c.Tag("deep-corner/big-integers")
+				if viol != "" {
+					c.Fail("C01/big-integer", viol, in)
+				}
+			}
+		}
 		// a text property whose entries have nothing to write (empty text), inside a sub-record and on the object
 		// itself, next to properties that do: the neighbours survive
 		for _, texts := range [][]interface{}{{[]interface{}{"en", ""}}, {[]interface{}{"en", ""}, []interface{}{"fr", ""}}, {[]interface{}{"-", ""}}} {
@@ -541,6 +594,27 @@ func init() {
 		var in map[string]interface{}
 		if err := json.Unmarshal(input, &in); err != nil {
 			return "bad replay input"
+		}
+		if bs, ok := in["bigint"].(string); ok {
+			z, _ := strconv.ParseInt(bs, 10, 64)
+			p := &ap.Place{ID: "https://example.com/p", Type: ap.PlaceType, Radius: z}
+			b, err := ap.MarshalJSON(p)
+			if err != nil {
+				return err.Error()
+			}
+			back, err := ap.UnmarshalJSON(b)
+			if q, ok := back.(*ap.Place); err != nil || !ok || q.Radius != z {
+				return fmt.Sprintf("Place.radius %d comes back as %v", z, back)
+			}
+			if z > 0 {
+				l := &ap.Link{ID: "https://example.com/l", Type: ap.LinkType, Width: uint(z)}
+				b, _ = ap.MarshalJSON(l)
+				back, err = ap.UnmarshalJSON(b)
+				if q, ok := back.(*ap.Link); err != nil || !ok || q.Width != uint(z) {
+					return fmt.Sprintf("Link width %d comes back as %v", z, back)
+				}
+			}
+			return ""
 		}
 		_, _, viol := jsonRoundTrip(parseTree(in["v"]))
 		return viol
